@@ -141,9 +141,15 @@ CHECKS = [
         "Namespace.track by assumed contract, filter commands excluded by precondition. _split_uscored_by_type (the longest "
         "registered type prefix of a symbol, candidates = prefixes ending in front of an underscore) is under contract with "
         "seven assumed lemmas about str.rsplit / count / join that are validated natively (bounded: all strings over {a,b,_} "
-        "up to length 6). Not under contract: tag-namespace typedef/struct handling, _pair_function/_is_constructor/"
-        "_pair_static_method/_setup_method (callers of the split), to_underscores, the exactly-once statement over a whole "
-        "scan (a whole-history property), get-type folding.", "DESIGN.md section 4 C04"),
+        "up to length 6). Pairing: _pair_function (roles tried in the order constructor, method, static function, each judged on the "
+        "prefix-stripped symbol, no further role once one was set up; call-discipline clauses), _is_constructor (named like a "
+        "constructor or annotated; returns a constructible type; belongs to the type whose prefix it carries, of this namespace; "
+        "a boxed constructor returns exactly its type), _get_constructor_class, _guess_constructor_by_name, _pair_static_method "
+        "(class: moved into the class; other types: a copy plus moved-to on the original), Namespace.float. "
+        "Assumed: _set_up_constructor / _setup_method (coarse frames), Function.clone, is_type_meta_function, _get_uscored_prefix. "
+        "Not under contract: tag-namespace typedef/struct handling, the parent-chain walk inside _is_constructor (invariant: "
+        "diagnostics only), to_underscores, the exactly-once statement over a whole scan (a whole-history property), get-type "
+        "folding.", "DESIGN.md section 4 C04"),
     chk("C02", "Function contracts on the real transfer-default functions of maintransformer.py (documented defaults for all type / "
         "direction combinations), on _pass3_callable_throws (a trailing GError** is removed and the callable marked as throwing, "
         "nothing else changes) and on _pass3_callable_callbacks: destroy name, scope, transfer and closure name of every "
